@@ -7,8 +7,9 @@ from hypothesis import strategies as st
 from persim.persistent_entropy import persistent_entropy
 
 from ..core import Clause
-from ..strategies import diagram_family, finite, permutation_of
+from ..strategies import dict_of, diagram_family, finite, permutation_of
 
+FUZZ = ["inf_bars"]
 RULE = ("Barcodes are generated on a shared integer lattice (exact ties, scales 10^-6..10^6), as ulp-perturbed "
         "lattice points and as arbitrary floats; oracle = direct float64 evaluation of -sum p_i log p_i.")
 ASSUMPTIONS = ["n = 1 with normalize=True (0/0) is outside the statement and is not generated",
@@ -41,7 +42,7 @@ def _nontrivial(bars):
 
 # -- value ------------------------------------------------------------------------------
 
-s_value = st.fixed_dictionaries({
+s_value = dict_of({
     "fam": positive_barcodes(),
     "normalize": st.booleans(),
 })
@@ -71,7 +72,7 @@ def check_value(case, ctx):
 
 # -- equal lengths (constructed, so the class is not left to chance) ---------------------
 
-s_equal = st.fixed_dictionaries({
+s_equal = dict_of({
     "births": st.lists(st.integers(-50, 50), min_size=1, max_size=30),
     "length": st.integers(1, 40),
     "k": st.sampled_from([0, 1, -1, 3, -3, 10, -10]),
@@ -121,7 +122,7 @@ def check_invariance(case, ctx):
 
 # -- list input ----------------------------------------------------------------------------
 
-s_list = st.integers(1, 5).flatmap(lambda k: st.fixed_dictionaries({
+s_list = st.integers(1, 5).flatmap(lambda k: dict_of({
     "fam": positive_barcodes(count=k, min_size=2, max_size=12), "normalize": st.booleans()}))
 
 
